@@ -29,10 +29,12 @@ def content_bytes(c, salt=b""):
         return (b"0123456789abcdef" * 4096) * 10 + b"tail"     # 640 KiB: several transfer chunks
     if c == 6:
         return (b"mid-size file: more than one pipe write, less than one transfer chunk\n" * 4000)[:200_000]     # 64 KiB < size < 256 KiB
+    if c == 7:
+        return (b"fedcba9876543210" * 4096) * 10 + b"liat"     # same length as content 5, different bytes (crash scenarios only)
     raise ValueError(c)
 
 
-BY_BYTES = {content_bytes(c): c for c in (1, 2, 3, 4, 5, 6)}
+BY_BYTES = {content_bytes(c): c for c in (1, 2, 3, 4, 5, 6, 7)}
 
 
 def _init(copia, root, shimdir, seed):
